@@ -137,7 +137,7 @@ Proof.
         destruct (Hdbl c1 t1 b r eq_refl Hcc Elp) as [tr [m' [n' [Hr [H1 [H2 [H3 H4]]]]]]].
         exists tr, m', n'. auto.
       + destruct (lit_prefix (c1 :: t1)) as [b r] eqn:Elp. cbn [fst snd].
-        destruct (Hstep b r Elp) as [tr [m' [n' [Hr [H1 [H2 [H3 H4]]]]]]].
+        destruct (Hstep b r eq_refl) as [tr [m' [n' [Hr [H1 [H2 [H3 H4]]]]]]].
         exists tr, m', n'. auto. }
   destruct (lit_prefix t) as [b r] eqn:Elp. cbn [fst snd].
   destruct (Hstep b r eq_refl) as [tr [m' [n' [Hr [H1 [H2 [H3 H4]]]]]]].
